@@ -312,6 +312,11 @@ func (c *Ctx) readDispatchFn(pkg, name string) *Table {
 				return t
 			}
 		}
+		if nEq == 0 && pkg == pkgReduce && name == "reducers" {
+			// the last reducer as the default case: for the list of reducers the key is only a position
+			key = ssa.NewConst(constant.MakeInt64(-1), types.Typ[types.Int])
+			nEq = 1
+		}
 		if nEq != 1 || key == nil {
 			t.Err = "dispatch function " + fnName(f) + " yields a value on a path not selected by one key constant (default case?)"
 			return t
